@@ -182,18 +182,26 @@ def table_length_guard(db):
     return prod or (div and rem)
 
 
-def bodies(db, fn):
-    """fn followed by the closures created in it, transitively: the source-level body of one function"""
-    out, st = [], [fn]
+def bodies(db, fn, helpers=0):
+    """fn followed by the closures created in it, transitively: the source-level body of one function.
+    With helpers=n, functions of the same crate that it calls (directly resolved calls, n levels) are included as
+    well: code extracted into a private helper is still that function's code."""
+    out, st = [], [(fn, 0)]
+    crate = fn.path.lstrip('<').split('::')[0]
     while st:
-        f = st.pop(0)
+        f, d = st.pop(0)
         if f in out:
             continue
         out.append(f)
         if f.has_mir and not f.compact:
             for c in db.closure_creations(f):
                 if c in db.fns:
-                    st.append(db.fns[c])
+                    st.append((db.fns[c], d))
+            if d < helpers:
+                for _, t in f.calls():
+                    c = t['f'].get('resolved') if t['f'].get('is_resolved') else None
+                    if c in db.fns and c.lstrip('<').split('::')[0] == crate and c != fn.path:
+                        st.append((db.fns[c], d + 1))
     return out
 
 
